@@ -8,7 +8,9 @@ import collections
 
 CONT, TERM = 0, 1
 
-EXC_OF_END = {'RAISE_A': 'ExcA', 'RAISE_B': 'ExcB', 'RAISE_O': 'ExcO', 'INVALID': 'InvalidPhaseResultError'}
+EXC_OF_END = {'RAISE_A': 'ExcA', 'RAISE_B': 'ExcB', 'RAISE_O': 'ExcO', 'INVALID': 'InvalidPhaseResultError',
+              'INVALID_FALSE': 'InvalidPhaseResultError', 'INVALID_ZERO': 'InvalidPhaseResultError',
+              'INVALID_EMPTY': 'InvalidPhaseResultError'}
 TERMINAL_KINDS = ('STOP', 'TIMEOUT')
 
 
@@ -310,6 +312,9 @@ class Model(object):
     for name in n['m']:
       v = None if timeout_phase else b['sets'].get(name)
       meas[name] = {'p': 'PASS', 'f': 'FAIL', None: 'UNSET'}[v]
+      cvr = (n.get('cv') or {}).get(name)
+      if cvr is not None and cvr in self.store and v == 'p':
+        meas[name] = 'FAIL'   # conditional validator applies: its diagnosis result existed when the phase started
     allowed = {'PASS', 'UNSET'} if self.opts.get('allow_unset') else {'PASS'}
     meas_ok = all(v in allowed for v in meas.values())
     # pre-diagnosis outcome
